@@ -39,6 +39,19 @@ func wireRoundTrip(v rel.Value) (w wireOut) {
 	return w
 }
 
+// withBudget runs f in a goroutine; ok is false when it did not finish in time
+// (the goroutine is abandoned, as eval.go does for evaluations).
+func withBudget(budget time.Duration, f func() wireOut) (wireOut, bool) {
+	ch := make(chan wireOut, 1)
+	go func() { ch <- f() }()
+	select {
+	case w := <-ch:
+		return w, true
+	case <-time.After(budget):
+		return wireOut{}, false
+	}
+}
+
 func wireReport(out map[string]any, w wireOut, orig rel.Value) {
 	out["wire"] = w.text
 	switch {
@@ -84,7 +97,12 @@ func init() {
 		}
 		out["val"] = dump(r.val, 0)
 		out["val_type"] = rel.ValueTypeAsString(r.val)
-		wireReport(out, wireRoundTrip(r.val), r.val)
+		w, ok := withBudget(5*time.Second, func() wireOut { return wireRoundTrip(r.val) })
+		if !ok {
+			out["st"] = "timeout"
+			return out
+		}
+		wireReport(out, w, r.val)
 		return out
 	})
 	register("c13wiredec", func(in map[string]any) map[string]any {
